@@ -170,7 +170,7 @@ pub fn scenarios(tier: Tier) -> Vec<Scenario> {
                 }
                 add(pol, 1, 0, true, 1, 2, true, 2);
                 add(pol, 1, 2, false, 1, 2, true, 2);
-                add(pol, 1, 1, true, 2, 1, true, 2);
+                add(pol, 1, 1, true, 2, 1, true, 1);
             }
         }
     }
